@@ -11,11 +11,11 @@ NOTE = ("Trusted base: Lean 4.33.0 kernel (axioms propext, Classical.choice, Quo
 CLAIMED = {
     'C01': ('refinement theorem over the Lsm model (under the invariant, the implementation\'s lookup order returns what a sorted map of all entries dictates; every contract-satisfying '
             'flush/compaction/recovery step preserves the invariant and every protected view), with the hypotheses (stepOk, Inv) evaluated by lean tracecheck on every step of real histories '
-            'and every get recomputed from the model state and from the plain write history', 'Lean 4 proof + trace validation of real histories against the model', '7 C01'),
+            'and every get recomputed from the model state and from the plain write history; the mechanisms behind the contracts are in the model as well (file selection of version_set.c, the compaction drop loop, skiplist/memtable, LRU cache: proved to establish the contracts / refine the abstractions, compared with the C functions response by response, and applied by tracecheck to every observed flush and compaction)', 'Lean 4 proof + trace validation of real histories against the model + model/implementation correspondence of the mechanisms', '7 C01, 7a'),
     'C05': ('recover_subset / recover_sublist / crash_versions_step over the protocol model (per-log prefix, nothing invented); every image variant reopened, followed by synced writes and a second reopen',
             'Lean 4 proof + trace validation of real I/O journals + crash-image replay', '7 C05'),
-    'C06': ('snapshot_view_stable / write_view / background_preserves_view theorems over the Lsm model; trace validation of histories with many live snapshots across compactions of every level',
-            'Lean 4 proof + trace validation of real histories against the model', '7 C06'),
+    'C06': ('snapshot_view_stable / write_view / background_preserves_view theorems over the Lsm model; trace validation of histories with many live snapshots across compactions of every level; the drop loop of ldb_do_compaction_work is in the model (dropLoop_sameAnswer, expectedOutput_meets_contract, mechanism_preserves_view) and the output of every real compaction is recomputed with it; concurrent runs under the deterministic scheduler read every key twice through one snapshot',
+            'Lean 4 proof + trace validation of real histories against the model + schedule exploration', '7 C06, 7a'),
     'C07': ('cursor-over-sorted-map specification of the user iterator; every iterator step of real histories (direction changes, all seek kinds, snapshots, three comparators) must land where the '
             'map cursor over the model state dictates; implementation-side iterator models and their refinement theorems', 'Lean 4 proof + trace validation of real histories against the model', '7 C07'),
     'C08': ('linearizability theorems over the Conc transition system (commit_once, fifo/real-time order, reader_linearizable, batch atomicity for readers) for all schedules and all '
@@ -37,7 +37,7 @@ CLAIMED = {
             'every unlink of the real journal judged by the storage-protocol monitor (nothing a recoverable version needs), also while garbage collection races with the foreground and after failed flushes/compactions',
             'Lean 4 proof + trace validation of real histories against the model', '7 C13'),
     'C14': ('Inv (sorted disjoint levels, file bounds, recency, distinct numbers) proved preserved by every contract-satisfying step; evaluated on every reconstructed version of real histories; '
-            'layout after reopen must equal the model\'s', 'Lean 4 proof + trace validation of real histories against the model', '7 C14'),
+            'layout after reopen must equal the model\'s; the selection functions of version_set.c (overlapping inputs with the level-0 restart, boundary files, setup_other_inputs, compact_range, pick level) are modelled, proved to establish clauses (a), (a\') and the flush clause of the contract, and compared with the C functions on generated versions and on every observed step', 'Lean 4 proof + trace validation of real histories against the model + model/implementation correspondence of the mechanisms', '7 C14, 7a'),
     'C02': ('synced_durable / crash_image_readable over the storage-protocol model: for every trace accepted by the monitor (Conforms), every crash point and every crash image the model allows, '
             'recovery succeeds and every sync-acknowledged batch is replayed or its log retired; the monitor is evaluated on the real system-call journal (MANIFEST bytes decoded by the Lean decoders) and '
             'sampled crash images are materialised and reopened with the real code, written to and reopened again; on concurrent runs a commit group holding a sync write must be fsynced before it is '
@@ -57,7 +57,7 @@ CLAIMED = {
             'ldb_edit_export/import and the varint coders; MANIFEST bytes of real histories (incl. reused MANIFESTs growing past 32 KiB blocks) decoded by the Lean decoders, CURRENT switches judged by the '
             'storage-protocol monitor, every call of a MANIFEST roll-over failing in turn', 'Lean 4 proof + model/implementation correspondence + trace validation of real I/O journals', '7 C17'),
     'C18': ('no-fault/totality theorems for every modelled decoder (explicit guards mirrored from the C code; fault outcome unreachable), with sanitizer-backed differential fuzzing of the real decoders '
-            'against the models on malformed and hand-crafted inputs', 'Lean 4 proof + sanitizer-backed differential correspondence', '7 C18'),
+            'against the models on malformed and hand-crafted inputs; at database level forged (well-framed, semantically arbitrary) MANIFESTs are opened, read, scanned, compacted and written by the real code in a child process with an alarm and a memory limit', 'Lean 4 proof + sanitizer-backed differential correspondence', '7 C18'),
     'C19': ('repair theorems over the Repair/Lsm models (no entry lost or invented, iterator = newest per key, counters continue, point lookups correct iff numbering follows age, with a '
             'kernel-checked witness for the failing case); repair histories on the real database validated against the rebuilt model state', 'Lean 4 proof + trace validation of real histories against the model', '7 C19'),
     'C20': ('owned-file-name grammar theorem for ldb_parse_filename (destroy touches only owned names) + exact correspondence on all short strings; lifecycle histories on the real database (second '
